@@ -47,14 +47,96 @@ func (m *Mutex) Unlock() {
 	}
 }
 
-// RWMutex is implemented as a plain mutex (writers and readers exclude each other); this is a
-// legal refinement of sync.RWMutex semantics.
-type RWMutex struct{ m Mutex }
+// RWMutex: readers-preference lock on top of Mutex (several readers, recursive read locking by
+// one goroutine and read-unlock from another goroutine behave as with sync.RWMutex; a waiting
+// writer does not block new readers, which sync.RWMutex does not promise either way).
+type RWMutex struct {
+	w       Mutex // held by the writer, or by the group of readers
+	mu      Mutex // guards readers
+	readers int
+}
 
-func (rw *RWMutex) Lock()    { rw.m.Lock() }
-func (rw *RWMutex) Unlock()  { rw.m.Unlock() }
-func (rw *RWMutex) RLock()   { rw.m.Lock() }
-func (rw *RWMutex) RUnlock() { rw.m.Unlock() }
+func (rw *RWMutex) Lock()   { rw.w.Lock() }
+func (rw *RWMutex) Unlock() { rw.w.Unlock() }
+
+func (rw *RWMutex) TryLock() bool { return rw.w.TryLock() }
+
+func (rw *RWMutex) RLock() {
+	rw.mu.Lock()
+	rw.readers++
+	if rw.readers == 1 {
+		rw.w.Lock()
+	}
+	rw.mu.Unlock()
+}
+
+func (rw *RWMutex) TryRLock() bool {
+	if !rw.mu.TryLock() {
+		return false
+	}
+	defer rw.mu.Unlock()
+	if rw.readers == 0 && !rw.w.TryLock() {
+		return false
+	}
+	rw.readers++
+	return true
+}
+
+func (rw *RWMutex) RUnlock() {
+	rw.mu.Lock()
+	rw.readers--
+	if rw.readers < 0 {
+		panic("vsync: RUnlock of unlocked RWMutex")
+	}
+	if rw.readers == 0 {
+		rw.w.Unlock()
+	}
+	rw.mu.Unlock()
+}
+
+type rlocker RWMutex
+
+func (r *rlocker) Lock()   { (*RWMutex)(r).RLock() }
+func (r *rlocker) Unlock() { (*RWMutex)(r).RUnlock() }
+
+func (rw *RWMutex) RLocker() Locker { return (*rlocker)(rw) }
+
+// Cond mirrors sync.Cond with channels (a waiter blocks durably).
+type Cond struct {
+	L       Locker
+	mu      Mutex
+	waiters []chan struct{}
+}
+
+func NewCond(l Locker) *Cond { return &Cond{L: l} }
+
+func (c *Cond) Wait() {
+	ch := make(chan struct{})
+	c.mu.Lock()
+	c.waiters = append(c.waiters, ch)
+	c.mu.Unlock()
+	c.L.Unlock()
+	<-ch
+	c.L.Lock()
+}
+
+func (c *Cond) Signal() {
+	c.mu.Lock()
+	if len(c.waiters) > 0 {
+		close(c.waiters[0])
+		c.waiters = c.waiters[1:]
+	}
+	c.mu.Unlock()
+}
+
+func (c *Cond) Broadcast() {
+	c.mu.Lock()
+	for _, ch := range c.waiters {
+		close(ch)
+	}
+	c.waiters = nil
+	c.mu.Unlock()
+}
 
 // Once mirrors sync.Once on top of Mutex.
 type Once struct {
@@ -70,4 +152,80 @@ func (o *Once) Do(f func()) {
 	}
 	defer func() { o.done = true }()
 	f()
+}
+
+// OnceFunc, OnceValue and OnceValues mirror the sync functions of the same names (a panic in f is
+// re-raised on every call, as the originals do).
+func OnceFunc(f func()) func() {
+	var once Once
+	var valid bool
+	var p any
+	g := func() {
+		defer func() {
+			p = recover()
+			if !valid {
+				panic(p)
+			}
+		}()
+		f()
+		f = nil
+		valid = true
+	}
+	return func() {
+		once.Do(g)
+		if !valid {
+			panic(p)
+		}
+	}
+}
+
+func OnceValue[T any](f func() T) func() T {
+	var once Once
+	var valid bool
+	var p any
+	var result T
+	g := func() {
+		defer func() {
+			p = recover()
+			if !valid {
+				panic(p)
+			}
+		}()
+		result = f()
+		f = nil
+		valid = true
+	}
+	return func() T {
+		once.Do(g)
+		if !valid {
+			panic(p)
+		}
+		return result
+	}
+}
+
+func OnceValues[T1, T2 any](f func() (T1, T2)) func() (T1, T2) {
+	var once Once
+	var valid bool
+	var p any
+	var r1 T1
+	var r2 T2
+	g := func() {
+		defer func() {
+			p = recover()
+			if !valid {
+				panic(p)
+			}
+		}()
+		r1, r2 = f()
+		f = nil
+		valid = true
+	}
+	return func() (T1, T2) {
+		once.Do(g)
+		if !valid {
+			panic(p)
+		}
+		return r1, r2
+	}
 }
